@@ -1,6 +1,7 @@
 use crate::engine::{PropertyDef, Tier};
 pub mod c01;
 pub mod c02;
+pub mod c04;
 pub mod c09;
 pub mod c18;
 pub mod lc;
@@ -11,6 +12,7 @@ pub fn get(id: &str, tier: Tier) -> Option<PropertyDef> {
         "C09" => Some(c09::def(tier)),
         "C18" => Some(c18::def(tier)),
         "C02" => Some(c02::def(tier)),
+        "C04" => Some(c04::def(tier)),
         "C05" => Some(lc::c05(tier)),
         "C06" => Some(lc::c06(tier)),
         "C07" => Some(lc::c07(tier)),
